@@ -497,6 +497,9 @@ def bounded_part(C, _dget, last_saved, ENTRY_FIELDS):
 def build():
     C = ContractSet("C15", "Persistent data is durable, never torn, and survives write failures")
     C.strings = True
+    C.finite_checks.append(common.native_demo_check(
+        "c15_snapshot_of_live_dict_fails.py",
+        "a save whose snapshot fails (the owner changes the live dict while it is copied) does not stop later saves"))
     C.finite_checks.append(path_model_check)
     C.finite_checks.append(native_check)
     C.ghost.update(dict(fs=MapS(Str, Int), faults=Int, stopped=Bool))
@@ -715,7 +718,13 @@ def build():
     C.globals["copy"] = VFn("module", name="copy")
 
     def deepcopy(I, a, k):
-        rely(I) if "self" in I.frames[0].env and I.frames[0].fc.key == "DataManager._writing_thread" else None
+        in_writer = "self" in I.frames[0].env and I.frames[0].fc.key == "DataManager._writing_thread"
+        rely(I) if in_writer else None
+        if in_writer and I.ctx.fork(2) == 1:
+            # the snapshot itself can fail: the owner mutates the live dict while it is copied (RuntimeError: dictionary
+            # changed size during iteration), or the data is nested too deeply (RecursionError)
+            I.write_field(I.ghost, "faults", VInt(I.force(I.read_field(I.ghost, "faults")).t + 1))     # like a failed write
+            I.raise_("RuntimeError", "deepcopy of the live data failed")
         v = I.force(a[0])
         emit(I, "deepcopy", data=v)
         return v
@@ -751,8 +760,9 @@ def build():
              ("the file is complete", "fs_at(self.filename) >= 0"),
          ],
          raises={"Exception": True},
-         ensures_exc=[("a failed write inside the loop never ends the thread: an exception can escape only from the "
-                       "final flush", "ghost.stopped")],
+         ensures_exc=[("D3: a failed write - or a failed snapshot of the data - inside the loop never ends the thread (every "
+                       "later save, the shutdown flush included, would silently be dropped): an exception can escape only "
+                       "from the final flush", "ghost.stopped")],
          # self.data and the stop flag are changed by the environment only (rely), listed because the loop havocs them
          modifies=["ghost.fs", "ghost.faults", "ghost.stopped", "FileManager.is_busy", "FileManager.initialized",
                    "self._dirty.flag", "self.data", "self.machine.thread_stopper.flag"])
